@@ -1,0 +1,38 @@
+//go:build verif
+
+// Verification hooks (build tag verif only): thin accessors to the unexported sync functions and the
+// RPC handler of this package. No logic of their own.
+
+package comm
+
+import (
+	"context"
+
+	"github.com/vechain/thor/v2/chain"
+	"github.com/vechain/thor/v2/p2p"
+	"github.com/vechain/thor/v2/p2p/discover"
+	"github.com/vechain/thor/v2/p2psrv/rpc"
+)
+
+// VerifNewPeer wraps newPeer over the given message pipe.
+func VerifNewPeer(rw p2p.MsgReadWriter) *Peer {
+	return newPeer(p2p.NewPeer(discover.NodeID{}, "verif", nil), rw)
+}
+
+// VerifFindCommonAncestor calls findCommonAncestor.
+func VerifFindCommonAncestor(ctx context.Context, repo *chain.Repository, peer *Peer, headNum uint32) (uint32, error) {
+	return findCommonAncestor(ctx, repo, peer, headNum)
+}
+
+// VerifDownload calls download.
+func VerifDownload(ctx context.Context, repo *chain.Repository, peer *Peer, headNum uint32, handler HandleBlockStream) error {
+	return download(ctx, repo, peer, headNum, handler)
+}
+
+// VerifHandler returns the RPC handler servePeer installs for a peer (handleRPC with its per-peer tx sync state).
+func (c *Communicator) VerifHandler(peer *Peer) rpc.HandleFunc {
+	var txsToSync txsToSync
+	return func(msg *p2p.Msg, w func(any)) error {
+		return c.handleRPC(peer, msg, w, &txsToSync)
+	}
+}
